@@ -790,7 +790,7 @@ class NonlinearSolver(Solver):
         stalled = False
         stall_count = 0
         if stall_limit > 0:
-            stall_norm = norm0
+            stall_norm = norm / norm0 if stall_tol_type == 'rel' else norm
 
         force_one_iteration = system.under_complex_step
 
